@@ -20,7 +20,7 @@ func inert[T signal.SignalTypes](b *signal.Buffer[T], what string) {
 // C20_ZeroChannels: buffers allocated with zero channels, any length/capacity request.
 func C20_ZeroChannels[T signal.SignalTypes]() {
 	K := vf.Pick("K", 0, 3)
-	L := vf.Pick("L", 0, K)
+	L := vf.Pick("L", 0, 3) // with zero channels any length request is inert, also one above the capacity
 	var b *signal.Buffer[T]
 	panicked := vf.Panics(func() {
 		b = signal.Alloc[T](signal.Allocator{Channels: 0, Length: L, Capacity: K})
@@ -192,4 +192,30 @@ func C20_ZeroLengthIO[T signal.SignalTypes]() {
 	vf.Assert("storage-untouched", vf.SameBits(base.Sample(k), before))
 	vf.Assert("slices-untouched", vf.SameBits(in[0], keep[0]) && vf.SameBits(in[2], keep[2]) && vf.SameBits(str[0][1], keep2[0][1]))
 	vf.Assert("still-empty", w.Len() == 0 && w.Length() == 0)
+}
+
+// C20_PooledZeroLength: a zero-length buffer handed out again by a pool (after it had been filled) is inert.
+func C20_PooledZeroLength[T signal.SignalTypes]() {
+	C := vf.Pick("C", 1, 2)
+	K := vf.Pick("K", 1, 2)
+	p := signal.PoolAlloc[T](signal.Allocator{Channels: C, Length: 0, Capacity: K})
+	panicked := vf.Panics(func() {
+		b := p.Get()
+		for i, n := 0, vf.Pick("n", 0, C*K); i < n; i++ {
+			b.AppendSample(vf.Any[T]("v"))
+		}
+		p.Put(b)
+		g := p.Get()
+		vf.Assert("cap", g.Cap() == C*K && g.Capacity() == K)
+		inert(g, "pooled-zero-length")
+		str := make([][]T, C)
+		for i := range str {
+			str[i] = anySlice[T]("s", 1)
+		}
+		keep := clone2(str)
+		vf.Assert("read-striped-returns-0", signal.ReadStriped(g, str) == 0)
+		vf.Assert("read-striped-transfers-nothing", vf.SameBits(str[0][0], keep[0][0]))
+		vf.Assert("channel-view-empty", g.Channel(C-1).Length() == 0)
+	})
+	vf.Assert("no-panic", !panicked)
 }
